@@ -104,30 +104,14 @@ structure TpS where
   active : Bool := false
 deriving Repr, DecidableEq
 
-/-- `Tp::step`.  NOTE (faithful to the code): a rising edge of IN restarts ET **even while a pulse
-is active** — the pulse is retriggerable, contrary to IEC 61131-3 (see `Spec.tpRunning` and
-`c04_tp_counterexample`). -/
+/-- `Tp::step`.  A rising edge of IN is accepted only while no pulse is running
+(`if rising && !self.active`): the pulse is not retriggerable. -/
 def tpStep (s : TpS) (c : TCall) : TpS × TOut :=
   let pt := normPt c.pt
   let rising := !s.prevIn && c.inp
-  let active0 := rising || s.active
-  let et0 := if rising then 0 else s.et
-  let s2 : TpS :=
-    if active0 then
-      if et0 + c.dt ≥ pt then { s with active := false, et := pt }
-      else { s with active := true, et := et0 + c.dt }
-    else { s with active := false, et := et0 }
-  let s3 : TpS := { s2 with q := s2.active, prevIn := c.inp }
-  (s3, { q := s3.q, et := if s3.active then s3.et else 0 })
-
-/-- `Tp::step` with the candidate fix of finding C04-tp-retrigger applied
-(`if rising && !self.active { … }`): NOT the code as it is; used only by `c04_tp_fixed_trace`, which
-shows that this one-line patch restores the IEC behaviour on every trace. -/
-def tpStepFixed (s : TpS) (c : TCall) : TpS × TOut :=
-  let pt := normPt c.pt
-  let rising := !s.prevIn && c.inp && !s.active
-  let active0 := rising || s.active
-  let et0 := if rising then 0 else s.et
+  let start := rising && !s.active
+  let active0 := start || s.active
+  let et0 := if start then 0 else s.et
   let s2 : TpS :=
     if active0 then
       if et0 + c.dt ≥ pt then { s with active := false, et := pt }
@@ -137,7 +121,8 @@ def tpStepFixed (s : TpS) (c : TCall) : TpS × TOut :=
   (s3, { q := s3.q, et := if s3.active then s3.et else 0 })
 
 def tpOvf (s : TpS) (c : TCall) : Bool :=
-  ((!s.prevIn && c.inp) || s.active) && !inI64 ((if !s.prevIn && c.inp then 0 else s.et) + c.dt)
+  ((!s.prevIn && c.inp && !s.active) || s.active) &&
+    !inI64 ((if (!s.prevIn && c.inp && !s.active) = true then 0 else s.et) + c.dt)
 
 /-! ## Timers — `exec_*` wrappers over instance variables -/
 
@@ -197,19 +182,6 @@ def execTp (i : TimerInst) (c : XCall) : TimerInst × TOut :=
 def execTpOvf (i : TimerInst) (c : XCall) : Bool :=
   elapsedOvf i.last c.now ||
     tpOvf { et := i.et, q := i.q, prevIn := i.prevIn, active := i.active } (c.toT i.last)
-
-/-- `exec_tp` over the patched step (see `tpStepFixed`; not the code as it is). -/
-def execTpFixed (i : TimerInst) (c : XCall) : TimerInst × TOut :=
-  let r := tpStepFixed { et := i.et, q := i.q, prevIn := i.prevIn, active := i.active } (c.toT i.last)
-  ({ i with q := r.2.q, et := r.2.et, prevIn := r.1.prevIn, active := r.1.active, last := some c.now }, r.2)
-
-def tpOvfFixed (s : TpS) (c : TCall) : Bool :=
-  ((!s.prevIn && c.inp && !s.active) || s.active) &&
-    !inI64 ((if !s.prevIn && c.inp && !s.active then 0 else s.et) + c.dt)
-
-def execTpOvfFixed (i : TimerInst) (c : XCall) : Bool :=
-  elapsedOvf i.last c.now ||
-    tpOvfFixed { et := i.et, q := i.q, prevIn := i.prevIn, active := i.active } (c.toT i.last)
 
 /-! ## Counters -/
 
@@ -405,7 +377,6 @@ def instRun (i : Inst) (tr : List Call) : Inst := tr.foldl (fun i c => (execStep
 def tonRun (tr : List TCall) : TonS := tr.foldl (fun s c => (tonStep s c).1) {}
 def tofRun (tr : List TCall) : TofS := tr.foldl (fun s c => (tofStep s c).1) {}
 def tpRun (tr : List TCall) : TpS := tr.foldl (fun s c => (tpStep s c).1) {}
-def tpRunFixed (tr : List TCall) : TpS := tr.foldl (fun s c => (tpStepFixed s c).1) {}
 def ctuRun (k : IntKind) (tr : List CtuCall) : CState := tr.foldl (fun s c => (ctuStep k s c).1) {}
 def ctdRun (k : IntKind) (tr : List CtdCall) : CState := tr.foldl (fun s c => (ctdStep k s c).1) {}
 def ctudRun (k : IntKind) (tr : List CtudCall) : CState := tr.foldl (fun s c => (ctudStep k s c).1) {}
@@ -418,7 +389,6 @@ def rsRun (tr : List (Bool × Bool)) : Bool := tr.foldl (fun q c => rsStep q c.1
 def execTonRun (tr : List XCall) : TimerInst := tr.foldl (fun i c => (execTon i c).1) {}
 def execTofRun (tr : List XCall) : TimerInst := tr.foldl (fun i c => (execTof i c).1) {}
 def execTpRun (tr : List XCall) : TimerInst := tr.foldl (fun i c => (execTp i c).1) {}
-def execTpRunFixed (tr : List XCall) : TimerInst := tr.foldl (fun i c => (execTpFixed i c).1) {}
 
 /-- The whole output sequence of a step function (one output per call). -/
 def outputs {σ α β : Type} (step : σ → α → σ × β) : σ → List α → List β
@@ -506,7 +476,8 @@ def tpR (h : List TCall) : TOut :=
 def tp (tr : List TCall) : TOut := tpR tr.reverse
 
 /-- A rising edge of IN arrives while a pulse is running somewhere in the history (the region in
-which the code deviates from IEC: see `c04_tp_counterexample`). -/
+which a retriggerable implementation would deviate; used to show that the traces covered by the
+TP theorems include it). -/
 def retriggered : List TCall → Bool
   | [] => false
   | c :: h => (c.inp && !lastIn h && (tpRunning h).isSome) || retriggered h
@@ -653,7 +624,7 @@ def rs (tr : List (Bool × Bool)) : Bool := rsR tr.reverse
 
 end Spec
 
-/-! ## The recorded witness of finding C04-tp-retrigger -/
+/-! ## The recorded witness of the (fixed) finding C04-tp-retrigger, kept as a regression case -/
 
 /-- PT = 10; IN rises at call 1, falls at call 2 and rises again at call 3, inside the pulse. -/
 def tpWitness : List TCall :=
